@@ -6,6 +6,7 @@ import re
 from typing import Dict, List, Optional, Set, Tuple
 
 from ..core import AnalysisError, RuleSpec
+from . import common
 from ..pymodel import call_name
 from .. import astq
 
@@ -420,6 +421,15 @@ def r6_links_and_empty_pages(ctx, rep):
         raise AnalysisError("meta_preprocessor: `lines[0]` access not found")
 
 
+
+def r7_memo(ctx, rep):
+    """a cache in the Markdown layer must be keyed by everything the cached element depends on - in particular the
+    location of the page being converted (links are made relative to it)"""
+    n = common.memo_soundness(ctx, rep, modules=("_markdown", "pagetree"))
+    if n == 0:
+        rep.ob("no cache in the Markdown layer", True, "links are computed per conversion", "ford/_markdown.py", nontrivial=False)
+
+
 RULES = [
     RuleSpec("C17.R6", r6_links_and_empty_pages, "link fragments survive; an empty page is harmless", floor=1),
     RuleSpec("C17.R1", r1_containment, "containment of a bad page", floor=2),
@@ -427,4 +437,5 @@ RULES = [
     RuleSpec("C17.R3", r3_layout_names, "layout names agree", floor=4),
     RuleSpec("C17.R4", r4_conversion_path, "conversion path per page", floor=2),
     RuleSpec("C17.R5", r5_copy_for_every_page, "assets copied for every page", floor=2),
+    RuleSpec("C17.R7", r7_memo, "no cached link element outlives the page it was made for", floor=1),
 ]
